@@ -34,6 +34,14 @@ E  every layout (bounded, see RULE) over the fixed skeleton
    plain, trailing slash, doubled slash, `<idf>/components/..`, `<parent>/./idf/.`, relative (`idf` from the parent, `.` from
    the root, `../..` from examples/pa), a symbolic link to the root with the files named through the link, and the link
    with the files named by their real path.
+   CMAKE family: layouts over {pa, pa/main, pa/nested, pb} in which the CMakeLists.txt of ONE project directory (pa, pa/nested
+   or pb) has another CONTENT SHAPE (table CMAKE_SHAPES): project() as the very first line / without final newline / after
+   other commands / `project (` / indented / arguments on the following lines / CRLF line ends / after a comment header of
+   > 4 KiB, > 64 KiB and of exactly such a length that `project(` straddles or starts at byte 4096 / 8192 / 65536 / after a
+   header with bytes that are not UTF-8 / after a commented-out project() (all: a project); `# project(` commented out, only in a
+   trailing comment, only inside the arguments of another command, only as part of a longer command name, an empty file (all:
+   NOT a project); PROJECT( / Project( / a byte-order mark before project( (the documentation does not say: no verdict
+   demanded where the two readings differ, order independence still checked).
 
 O1 per-file verdict == memo-free specification (spec_verdict) written from the property statement.
 O2 within one (layout, variant) the verdict of a file is the same for every order / subset of the argument list
@@ -79,6 +87,15 @@ RULE = (
     "grp/test_apps} (all five are projects; three share the base name test_apps), root is / is not a project, variants IDF_PATH from the "
     "environment / cwd fallback [thorough: --includes examples/alpha/test_apps, examples/grp; each rename file passed explicitly], EVERY "
     "non-empty ordered selection of the defaults files (so the verdict of a file in a run with others is compared with its verdict alone). "
+    "CMAKE family (content of the CMakeLists.txt that makes a directory a project): one-option layouts over the 4 places {pa, pa/main, "
+    "pa/nested, pb} with (r<=1, d<=2) or (r=2, d=1) [thorough: r<=2, d<=2], root not a project [thorough: is / is not], x the project "
+    "directory whose CMakeLists.txt is re-shaped {pa, pa/nested, pb} (only where a file of the layout lies in that directory's "
+    "subtree) x every shape of CMAKE_SHAPES (project: first_line, no_final_newline, after_commands, blank_before_paren, "
+    "tab_before_paren, indented, tab_indented, args_on_next_lines, crlf, header_4k, header_straddles_4096, header_ends_at_4096, "
+    "header_straddles_8192, header_64k, header_straddles_65536, header_not_utf8, commented_then_real; not a project: commented_out, "
+    "commented_out_tight, commented_out_after_header, in_trailing_comment, in_arguments, longer_command_name, empty_file; "
+    "undetermined: upper_case, mixed_case, bom_first_line); variants IDF_PATH from the environment (every ordered selection) / cwd "
+    "fallback [thorough: every ordered selection; and --includes examples/pa]. "
     "Per layout: invocation variants (IDF_PATH from the environment / cwd fallback; explicit rename files none / each / all; "
     "--includes none / examples / examples/pa [thorough: root, examples/common, examples/pa/nested, two dirs]) x EVERY non-empty "
     "ordered selection of the defaults files as argument list (variants with a single explicit rename file, which only changes "
@@ -90,6 +107,13 @@ ASSUMPTIONS = [
     "repository's own fixture and test_orphan_rename_is_invisible say an orphan rename file is not discovered unless a file inside "
     "that directory is checked). Only for a defaults file that itself lives in the orphan directory under such a root do the two "
     "readings disagree; there the verdict oracle is skipped (counter ambiguous_root_project), order-independence is still checked",
+    "a directory is a project when a line of its CMakeLists.txt begins (after blanks / tabs) with `project`, optional blanks and `(` "
+    "(docs/en/kconfcheck/index.rst: 'contains a CMakeLists.txt with a project( call'; _is_project_root: 'whose CMakeLists.txt runs "
+    "project(...)', detection intentionally syntactic), wherever in the file that line stands and however long the file is; a "
+    "project( that only occurs behind `#`, inside the arguments of another command or inside a longer command name is no call. CMake "
+    "itself takes command names case-insensitively and skips a byte-order mark, the checker's documentation speaks of `project(` "
+    "only: for PROJECT( / Project( / BOM + project( both readings are accepted (counter ambiguous_project_spelling). Not generated: "
+    "project() inside if(FALSE) or inside a multi-line string (documented false positives of the syntactic detection)",
     "`# CONFIG_X is not set` lines are not generated (the statement does not say whether they 'assign')",
     "no project() above the IDF root (scratch tree on tmpfs); --exclude-submodules not used",
     "IDF_PATH names a directory; two values that denote the same directory (lexically different spellings, a relative path, a symbolic "
@@ -154,6 +178,138 @@ DEEP_INCLUDE_DIRS_THOROUGH = DEEP_INCLUDE_DIRS_QUICK + (("examples/pa/nested",),
 
 _mod = None
 
+# CMAKE family: content shapes of the CMakeLists.txt of one project directory.  name -> (is a project: True / False / None =
+# the documentation does not say, class of the shape for the signature)
+CMAKE_PLACES = ("examples/pa", "examples/pa/main", "examples/pa/nested", "examples/pb")
+CMAKE_AT = ("examples/pa", "examples/pa/nested", "examples/pb")
+CMAKE_SHAPES = {
+    "first_line": (True, "project_call_position"),
+    "no_final_newline": (True, "project_call_position"),
+    "after_commands": (True, "project_call_position"),
+    "blank_before_paren": (True, "project_call_spacing"),
+    "tab_before_paren": (True, "project_call_spacing"),
+    "indented": (True, "project_call_spacing"),
+    "tab_indented": (True, "project_call_spacing"),
+    "args_on_next_lines": (True, "project_call_spacing"),
+    "crlf": (True, "project_call_spacing"),
+    "header_4k": (True, "project_after_long_header"),
+    "header_straddles_4096": (True, "project_after_long_header"),
+    "header_ends_at_4096": (True, "project_after_long_header"),
+    "header_straddles_8192": (True, "project_after_long_header"),
+    "header_64k": (True, "project_after_long_header"),
+    "header_straddles_65536": (True, "project_after_long_header"),
+    "header_not_utf8": (True, "project_after_non_utf8_header"),
+    "commented_then_real": (True, "project_after_commented_out_call"),
+    "commented_out": (False, "project_commented_out"),
+    "commented_out_tight": (False, "project_commented_out"),
+    "commented_out_after_header": (False, "project_commented_out"),
+    "in_trailing_comment": (False, "project_commented_out"),
+    "in_arguments": (False, "project_inside_another_command"),
+    "longer_command_name": (False, "project_inside_another_command"),
+    "empty_file": (False, "empty_cmakelists"),
+    "upper_case": (None, "project_other_case"),
+    "mixed_case": (None, "project_other_case"),
+    "bom_first_line": (None, "project_after_bom"),
+}
+_STD_HEAD = "cmake_minimum_required(VERSION 3.16)\ninclude($ENV{IDF_PATH}/tools/cmake/project.cmake)\n"
+
+
+def _std_cmake(p: str) -> str:
+    return _STD_HEAD + "project(%s)\n" % p.replace("/", "_")
+
+
+def _header(n: int) -> str:
+    """a comment header (licence / build notes) of exactly n characters, all ASCII, made of complete lines"""
+    line = "# This example project is in the Public Domain (or CC0 licensed, at your option); see the build notes of the project.\n"
+    out = line * (n // len(line))
+    rest = n - len(out)
+    if rest == 1:
+        out = out[:-1] + "#\n"  # the last line one character longer
+    elif rest > 1:
+        out += "#" * (rest - 1) + "\n"
+    assert len(out) == n and out.endswith("\n"), (n, len(out))
+    return out
+
+
+def cmake_text(shape: str, p: str) -> bytes:
+    """the CMakeLists.txt of project directory `p` in the given content shape"""
+    name = p.replace("/", "_")
+    call = f"project({name})\n"
+    std = _STD_HEAD + call
+    if shape == "std":
+        t = std
+    elif shape == "first_line":
+        t = call
+    elif shape == "no_final_newline":
+        t = std[:-1]
+    elif shape == "after_commands":
+        t = ("cmake_minimum_required(VERSION 3.16)\n\nset(EXTRA_COMPONENT_DIRS \"$ENV{IDF_PATH}/examples/common\")\nset(COMPONENTS main)\n"
+             "list(APPEND SDKCONFIG_DEFAULTS \"sdkconfig.defaults\")\nif(NOT DEFINED ENV{IDF_PATH})\n    message(FATAL_ERROR \"IDF_PATH is not set\")\nendif()\n"
+             "string(REGEX REPLACE \"/$\" \"\" IDF \"$ENV{IDF_PATH}\")\ninclude(${IDF}/tools/cmake/project.cmake)\nidf_build_set_property(MINIMAL_BUILD ON)\n\n"
+             + call + "\nidf_build_get_property(target IDF_TARGET)\n")  # fmt: skip
+    elif shape == "blank_before_paren":
+        t = _STD_HEAD + f"project ({name})\n"
+    elif shape == "tab_before_paren":
+        t = _STD_HEAD + f"project\t({name})\n"
+    elif shape == "indented":
+        t = _STD_HEAD + f"    project({name})\n"
+    elif shape == "tab_indented":
+        t = _STD_HEAD + f"\tproject({name})\n"
+    elif shape == "args_on_next_lines":
+        t = _STD_HEAD + f"project(\n    {name}\n    LANGUAGES C CXX\n)\n"
+    elif shape == "crlf":
+        t = std.replace("\n", "\r\n")
+    elif shape == "header_4k":
+        t = _header(4200) + std
+    elif shape == "header_straddles_4096":
+        t = _header(4092) + call
+    elif shape == "header_ends_at_4096":
+        t = _header(4096) + call
+    elif shape == "header_straddles_8192":
+        t = _header(8192 - 3 - len(_STD_HEAD)) + std
+    elif shape == "header_64k":
+        t = _header(70000) + std
+    elif shape == "header_straddles_65536":
+        t = _header(65536 - 7) + call
+    elif shape == "header_not_utf8":
+        return b"# Copyright \xa9 2024 Caf\xe9 M\xfcller GmbH \xff\xfe\n" * 8 + std.encode()
+    elif shape == "commented_then_real":
+        t = f"# project(old_{name})\n" + _STD_HEAD + f"#project(older_{name})\n" + call
+    elif shape == "commented_out":
+        t = _STD_HEAD + f"# project({name})\n"
+    elif shape == "commented_out_tight":
+        t = _STD_HEAD + f"#project({name})\n    #project({name})\n"
+    elif shape == "commented_out_after_header":
+        t = _header(5000) + _STD_HEAD + f"# project({name})\n"
+    elif shape == "in_trailing_comment":
+        t = f'idf_component_register(SRCS "a.c")  # project({name})\n'
+    elif shape == "in_arguments":
+        t = _STD_HEAD + f'message(STATUS "no project({name}) here")\nset(NOTE project ({name}))\n'
+    elif shape == "longer_command_name":
+        t = _STD_HEAD + f"project_include({name})\nsubproject({name})\nidf_project ({name})\n__project({name})\n"
+    elif shape == "empty_file":
+        t = ""
+    elif shape == "upper_case":
+        t = _STD_HEAD + f"PROJECT({name})\n"
+    elif shape == "mixed_case":
+        t = _STD_HEAD + f"Project({name})\n"
+    elif shape == "bom_first_line":
+        t = "\ufeff" + call
+    else:
+        raise ValueError(shape)
+    return t.encode("utf-8")
+
+
+def layout_projects(layout: dict, undetermined: bool = True) -> Tuple[str, ...]:
+    """the project directories of the skeleton under this layout (CMAKE family: one of them may have lost / kept its status)"""
+    cm = layout.get("cmake")
+    if not cm:
+        return PROJECTS
+    is_proj = CMAKE_SHAPES[cm["shape"]][0]
+    if is_proj is None:
+        is_proj = undetermined
+    return PROJECTS if is_proj else tuple(p for p in PROJECTS if p != cm["at"])
+
 
 class _NullLog:
     """Stand-in for esp_pylib's rich logger inside the checker module: the observed result is the value returned per file
@@ -199,11 +355,11 @@ def under(place: str, directory: str) -> bool:
     return directory == "" or place == directory or place.startswith(directory + "/")
 
 
-def spec_verdict(layout: dict, variant: tuple, fplace: str, literal_root: bool = False) -> bool:
+def spec_verdict(layout: dict, variant: tuple, fplace: str, literal_root: bool = False, undetermined: bool = True) -> bool:
     """True iff the defaults file at `fplace` must be flagged."""
     _via, explicit, includes = variant
     renames: Dict[str, str] = layout["renames"]
-    projects = PROJECTS + (("",) if (layout["rootproj"] and literal_root) else ())
+    projects = layout_projects(layout, undetermined) + (("",) if (layout["rootproj"] and literal_root) else ())
     scope = set()
     for rp, content in renames.items():
         is_global = rp == "" or under(rp, "components") or rp in explicit or any(under(rp, inc) for inc in includes)
@@ -333,6 +489,26 @@ def twin_layouts(tier: str):
     yield from _family("twin", tuple(PLACES.index(p) for p in TWIN_PLACES), in_tier, tier)
 
 
+def in_tier_cmake(ren, dfl, tier: str) -> bool:
+    r, d = len(ren), len(dfl)
+    if not _one_option(ren, dfl) or r > 2 or d > 2:
+        return False
+    return tier == "thorough" or r <= 1 or d == 1
+
+
+def cmake_layouts(tier: str):
+    """CMAKE family: the CMakeLists.txt of one project directory in every content shape"""
+    for base in _family("cmake", tuple(PLACES.index(p) for p in CMAKE_PLACES), in_tier_cmake, tier):
+        if base["rootproj"] and tier != "thorough":
+            continue
+        used = tuple(base["renames"]) + tuple(base["defaults"])
+        for at in CMAKE_AT:
+            if not any(under(p, at) for p in used):
+                continue  # no file of the layout lies in the subtree of that directory
+            for shape in CMAKE_SHAPES:
+                yield dict(base, cmake={"at": at, "shape": shape})
+
+
 def layouts(tier: str):
     rens = list(_assignments(3, CONTENTS))
     dfls = list(_assignments(3, CONTENTS, 1))
@@ -356,6 +532,7 @@ def layouts(tier: str):
     yield from deep_layouts(tier)
     yield from spell_layouts(tier)
     yield from twin_layouts(tier)
+    yield from cmake_layouts(tier)
 
 
 def variants(layout: dict, tier: str) -> List[Tuple[tuple, bool]]:
@@ -376,6 +553,11 @@ def variants(layout: dict, tier: str) -> List[Tuple[tuple, bool]]:
         if thorough:
             out += [(("env", (), ("examples/alpha/test_apps",)), True), (("env", (), ("examples/grp",)), True)]
             out += [(("env", (p,), ()), False) for p in rp]
+        return out
+    if layout.get("family") == "cmake":
+        out = [(("env", (), ()), True), (("cwd", (), ()), thorough)]
+        if thorough:
+            out.append((("env", (), ("examples/pa",)), True))
         return out
     deep = layout.get("family") == "deep"
     if deep:
@@ -445,7 +627,7 @@ def build_tree(layout: dict) -> str:
             os.makedirs(os.path.join(base, p), exist_ok=True)
         for p in PROJECTS:
             with open(os.path.join(base, p, "CMakeLists.txt"), "w") as f:
-                f.write("cmake_minimum_required(VERSION 3.16)\ninclude($ENV{IDF_PATH}/tools/cmake/project.cmake)\nproject(%s)\n" % p.replace("/", "_"))
+                f.write(_std_cmake(p))
         with open(os.path.join(base, "examples/pa/main", "CMakeLists.txt"), "w") as f:
             f.write('idf_component_register(SRCS "main.c")\n')
         with open(os.path.join(base, "components/c", "CMakeLists.txt"), "w") as f:
@@ -455,7 +637,7 @@ def build_tree(layout: dict) -> str:
             os.unlink(link)
         os.symlink("idf", link)
         _tree.clear()
-        _tree.update(base=base, files=[], rootproj=False)
+        _tree.update(base=base, files=[], rootproj=False, cmake=None)
     for fp in _tree["files"]:
         os.unlink(fp)
     _tree["files"] = files = []
@@ -467,6 +649,16 @@ def build_tree(layout: dict) -> str:
         else:
             os.unlink(root_cmake)
         _tree["rootproj"] = layout["rootproj"]
+    cm = layout.get("cmake") or None
+    if cm != _tree["cmake"]:
+        # rewritten in place (the directory entry stays where it is)
+        if _tree["cmake"]:
+            with open(os.path.join(base, _tree["cmake"]["at"], "CMakeLists.txt"), "w") as f:
+                f.write(_std_cmake(_tree["cmake"]["at"]))
+        if cm:
+            with open(os.path.join(base, cm["at"], "CMakeLists.txt"), "wb") as f:
+                f.write(cmake_text(cm["shape"], cm["at"]))
+        _tree["cmake"] = dict(cm) if cm else None
     for p in PLACES:
         if p in layout["renames"]:
             fp = os.path.join(base, p, "sdkconfig.rename")
@@ -606,9 +798,10 @@ def place_of(base: str, path: str) -> str:
 def relation(layout: dict, fplace: str, opt_places: List[str]) -> str:
     """How the rename files that mention an option of the file relate to the file's place (for the signature)."""
     rels = set()
-    mine = nearest_project(fplace, PROJECTS)
+    projects = layout_projects(layout)
+    mine = nearest_project(fplace, projects)
     for rp in opt_places:
-        theirs = nearest_project(rp, PROJECTS)
+        theirs = nearest_project(rp, projects)
         if rp == "":
             rels.add("idf_root")
         elif under(rp, "components"):
@@ -682,8 +875,13 @@ def check_group(layout: dict, variant: tuple, order_list: List[Tuple[str, ...]],
             # O1
             want_a = spec_verdict(layout, variant, fplace, literal_root=False)
             want_b = spec_verdict(layout, variant, fplace, literal_root=True)
+            cm = layout.get("cmake")
             if via not in ("env", "cwd"):
                 pass  # another spelling of IDF_PATH: compared with the plain spelling (O4), which is itself under O1
+            elif cm and CMAKE_SHAPES[cm["shape"]][0] is None and want_a != spec_verdict(layout, variant, fplace, undetermined=False):
+                # PROJECT( / Project( / BOM + project(: the documentation does not say whether that directory is a project
+                r.count("ambiguous_project_spelling")
+                r.skipped += 1
             elif want_a != want_b and nearest_project(fplace, PROJECTS) is None and fplace not in ("", "components/c"):
                 # the file itself lives in the orphan directory under a root that calls project(): see ASSUMPTIONS
                 r.count("ambiguous_root_project")
@@ -691,19 +889,24 @@ def check_group(layout: dict, variant: tuple, order_list: List[Tuple[str, ...]],
             elif flagged != want_a:
                 opts = layout["defaults"][fplace]
                 blame = [rp for rp, c in layout["renames"].items() if set(c) & set(opts)]
+                sig = {
+                    "kind": "verdict",
+                    "site": "check_deprecated_options.py:check_deprecated_options",
+                    "error": "false_alarm" if flagged else "missed",
+                    "file_at": fplace,
+                    "rename_at": relation(layout, fplace, blame),
+                    "position": "first" if idx == 0 else "after_other_files",
+                    "variant": variant_kind(variant),
+                    "root_is_project": layout["rootproj"],
+                }
+                if cm:
+                    sig["site"] = "check_deprecated_options.py:_is_project_root"
+                    sig["cmakelists"] = f"{CMAKE_SHAPES[cm['shape']][1]}@{cm['at']}"
                 r.violation(
-                    {
-                        "kind": "verdict",
-                        "site": "check_deprecated_options.py:check_deprecated_options",
-                        "error": "false_alarm" if flagged else "missed",
-                        "file_at": fplace,
-                        "rename_at": relation(layout, fplace, blame),
-                        "position": "first" if idx == 0 else "after_other_files",
-                        "variant": variant_kind(variant),
-                        "root_is_project": layout["rootproj"],
-                    },
+                    sig,
                     f"file at {fplace!r} (uses {opts}) {'flagged' if flagged else 'not flagged'}, specification says "
-                    f"{'flagged' if want_a else 'not flagged'}; rename files {layout['renames']}, variant {variant}, checked in order {order}",
+                    f"{'flagged' if want_a else 'not flagged'}; rename files {layout['renames']}, variant {variant}, checked in order {order}"
+                    + (f"; CMakeLists.txt of {cm['at']} in shape {cm['shape']!r} ({ {True: 'a project', False: 'not a project', None: 'undetermined'}[CMAKE_SHAPES[cm['shape']][0]]})" if cm else ""),
                     case,
                 )
             # O2
@@ -765,7 +968,7 @@ def run_layout(layout: dict, tier: str, r: common.Result) -> None:
                 r.count("spelling_" + variant[0][4:])
         _via, explicit, includes = variant
         r.outcome((layout["rootproj"], sorted(layout["renames"].items()), sorted(layout["defaults"].items()), explicit, includes, sorted(verd.items()))
-                  + ((_via,) if _via not in ("env", "cwd") else ()))  # fmt: skip
+                  + ((_via,) if _via not in ("env", "cwd") else ()) + ((layout["cmake"]["at"], layout["cmake"]["shape"]) if layout.get("cmake") else ()))  # fmt: skip
         if first is None:
             first = verd
     r.sample = {"layout": layout, "verdicts_plain": first, "invocations": r.evals}
